@@ -12,7 +12,7 @@ from vlib.core import Result
 ID = "C11"
 LEVEL = "exploration"
 RULE = ("Hypothesis-generated hierarchies of 2-5 classes (chains, diamonds D(B,C), classes that skip the declaration) in which "
-        "each declaring level picks a type from Parameter > Number > Integer or Parameter > String and a random subset of slots "
+        "each declaring level picks a type from Parameter > Number > Integer, Parameter > String or Parameter > Range and a random subset of slots "
         "(default, doc, label, precedence, bounds, inclusive_bounds, softbounds, step, allow_None, instantiate, constant, "
         "regex, per_instance, allow_refs, pickle_default_value) with values that do or do not conflict with inherited ones; the "
         "same hierarchy is also built with add_parameter on already created classes; oracle = independent per-slot MRO "
@@ -21,11 +21,12 @@ RULE = ("Hypothesis-generated hierarchies of 2-5 classes (chains, diamonds D(B,C
         "with a slot taken from a non-adjacent ancestor, or a merged-invalid default, or a type change; distinct = case hash.")
 ASSUMPTIONS = [
     "each level's own declaration is constructible on its own (otherwise the case is a constructor-time rejection: counted, no claim)",
-    "slot families: Parameter/Number/Integer and Parameter/String; readonly, Selector, Tuple and List slots not generated",
+    "slot families: Parameter/Number/Integer, Parameter/String and Parameter/Range; readonly, Selector, Tuple and List slots not generated",
 ]
 SIZES = {"quick": 2500, "thorough": 15000}
 
-PT = {"Parameter": param.Parameter, "Number": param.Number, "Integer": param.Integer, "String": param.String}
+PT = {"Parameter": param.Parameter, "Number": param.Number, "Integer": param.Integer, "String": param.String,
+      "Range": param.Range}
 TYPE_SLOTS = {
     "Parameter": ["default", "doc", "_label", "precedence", "allow_None", "instantiate", "constant", "per_instance", "allow_refs",
                   "nested_refs", "pickle_default_value", "readonly"],
@@ -41,7 +42,10 @@ TYPE_DEFAULT["Number"] = dict(TYPE_DEFAULT["Parameter"], default=0.0, bounds=Non
                               step=None)
 TYPE_DEFAULT["Integer"] = dict(TYPE_DEFAULT["Number"], default=0)
 TYPE_DEFAULT["String"] = dict(TYPE_DEFAULT["Parameter"], default="", regex=None)
-SUBTYPE = {("Integer", "Number"), ("Integer", "Parameter"), ("Number", "Parameter"), ("String", "Parameter")}
+TYPE_SLOTS["Range"] = TYPE_SLOTS["Parameter"] + ["bounds", "inclusive_bounds", "softbounds", "step", "length"]
+TYPE_DEFAULT["Range"] = dict(TYPE_DEFAULT["Parameter"], default=None, bounds=None, softbounds=None,
+                             inclusive_bounds=(True, True), step=None, length=2)
+SUBTYPE = {("Range", "Parameter"), ("Integer", "Number"), ("Integer", "Parameter"), ("Number", "Parameter"), ("String", "Parameter")}
 
 
 def _is_sub(a, b):
@@ -60,6 +64,12 @@ _numeric = dict(_common, **{
     "softbounds": st.sampled_from([[0, 1], [2, 8]]), "step": st.sampled_from([1, 2]),
 })
 _string = dict(_common, **{"default": st.sampled_from(["", "a", "ab", "b1", None]), "regex": st.sampled_from(["^a", "^b", "^[ab]*$"])})
+_range = dict(_common, **{
+    "default": st.sampled_from([[0, 1], [10, 2], [2, 10], [1, 1], None, [3, 4.5], [7, 3]]),
+    "bounds": st.sampled_from([[0, 10], [1, 5], [None, 4], [2, None]]),
+    "inclusive_bounds": st.sampled_from([[True, True], [False, True], [True, False]]),
+    "softbounds": st.sampled_from([[0, 1], [2, 8]]), "step": st.sampled_from([1, -1, 2, -2]),
+})
 _plain = dict(_common, **{"default": st.sampled_from([None, 0, 5, "a", 2.5, "b1"])})
 
 
@@ -67,9 +77,13 @@ _plain = dict(_common, **{"default": st.sampled_from([None, 0, 5, "a", 2.5, "b1"
 def _decl(draw, family):
     if family == "num":
         t = draw(st.sampled_from(["Number", "Number", "Integer", "Parameter"]))
+    elif family == "range":
+        t = draw(st.sampled_from(["Range", "Range", "Range", "Parameter"]))
     else:
         t = draw(st.sampled_from(["String", "String", "Parameter"]))
-    pool = {"Number": _numeric, "Integer": _numeric, "String": _string, "Parameter": _plain}[t]
+    pool = {"Number": _numeric, "Integer": _numeric, "String": _string, "Parameter": _plain, "Range": _range}[t]
+    if family == "range" and t == "Parameter":
+        pool = dict(_common, default=_range["default"])
     keys = draw(st.lists(st.sampled_from(sorted(pool)), max_size=4, unique=True))
     kw = {k: draw(pool[k]) for k in keys}
     if t == "Integer" and isinstance(kw.get("default"), float):
@@ -82,7 +96,7 @@ def _decl(draw, family):
 @st.composite
 def _case(draw):
     shape = draw(st.sampled_from(["chain", "chain", "diamond", "skip"]))
-    family = draw(st.sampled_from(["num", "num", "str"]))
+    family = draw(st.sampled_from(["num", "num", "str", "range"]))
     if shape == "diamond":
         bases = [[], [0], [0], [1, 2]]
         n = 4
@@ -100,6 +114,18 @@ def _case(draw):
             decls.append(draw(_decl(family)))
     if decls[0] is None:
         decls[0] = draw(_decl(family))
+    if family == "range" and draw(st.integers(0, 3)) == 0:
+        # a slot that changes what "valid" means: the sign of step decides the required order of (start, end).
+        # Top level: an ordered default under a step of one sign; a lower level flips the sign and nothing else that
+        # is validated (allow_None is kept identical at every level so that only the step differs).
+        neg = draw(st.booleans())
+        top = {"default": [10, 2] if neg else [2, 10], "step": -2 if neg else 2, "allow_None": True}
+        low = {"step": 2 if neg else -2}
+        for k in draw(st.lists(st.sampled_from(["softbounds", "doc", "precedence"]), max_size=2, unique=True)):
+            low[k] = draw(_range[k])
+        decls[0] = ["Range", top]
+        j = draw(st.integers(1, n - 1))
+        decls[j] = ["Range", low]
     return {"bases": bases, "decls": decls, "via_add_parameter": draw(st.booleans())}
 
 
@@ -194,6 +220,10 @@ def execute(case):
             cfg["inclusive"] = r["inclusive_bounds"]
         if t == "String":
             cfg["regex"] = r["regex"]
+        if t == "Range":
+            cfg["bounds"] = r["bounds"]
+            cfg["inclusive"] = r["inclusive_bounds"]
+            cfg["step"] = r["step"]
         if d is None and not type_change:
             return False
         v = specs.verdict(t, cfg, d)
